@@ -39,12 +39,24 @@ XalanSourceTreeInit::XalanSourceTreeInit(MemoryManager& theManager) :
     m_domSupportInit(theManager),
     m_xmlSupportInit(theManager)
 {
-    ++s_initCounter;
-
-    if (s_initCounter == 1)
+    if (s_initCounter == 0)
     {
-        initialize(theManager);
+        try
+        {
+            initialize(theManager);
+        }
+        catch(...)
+        {
+            // The destructor will not run: release what the partial
+            // initialization created, and do not count this instance,
+            // so the next one initializes again.
+            terminate();
+
+            throw;
+        }
     }
+
+    ++s_initCounter;
 }
 
 
